@@ -226,6 +226,19 @@ theorem fileRead_full (f : File) (b : Str) (w : World) (hb : b.length ≠ 0)
   · rw [step_dead _ _ _ _ (by simpa using ha)] at h2
     simp at h2; exact absurd h2.symm hb
 
+/-- `Read` fills the buffer in place: its length does not change -/
+theorem fileRead_len (f : File) (b : Str) (w : World) : (fileRead f b w).2.1.length = b.length := by
+  unfold fileRead
+  by_cases ha : w.alive = true
+  · rw [step_live _ _ _ _ ha]
+    by_cases hf : w.faulty = true
+    · simp [hf]
+    · simp only [hf, Bool.false_eq_true, if_false]
+      split
+      · rfl
+      · simp only [List.length_append, List.length_take, List.length_drop]; omega
+  · rw [step_dead _ _ _ _ (by simpa using ha)]
+
 theorem osCreateTemp_err (d pat : Str) (w : World) (h : (osCreateTemp d pat w).1.2 ≠ .nil) :
     (osCreateTemp d pat w).2.fs = w.fs := by
   unfold osCreateTemp at h ⊢
